@@ -653,6 +653,13 @@ fn statement_inputs(rng: &mut Rng, thorough: bool, out: &mut Vec<Input>) {
     ] {
         push("huge", t.to_string(), vec![]);
     }
+    // arrays whose element slots fit but whose elements own heap data (records, fixed-length strings)
+    for t in [
+        "TYPE BIGREC\n I AS INTEGER\n T AS STRING * 200\n D AS DOUBLE\nEND TYPE\nDIM A(32767, 200) AS BIGREC\nPRINT \"ok\"\n",
+        "DIM A(32767, 30) AS STRING * 32767\nPRINT \"ok\"\n",
+    ] {
+        push("huge-owned-elements", t.to_string(), vec![]);
+    }
     // records: nested, fixed strings, arrays of records, passing them around
     let rec2 = "TYPE INNER\n A AS INTEGER\n S AS STRING * 3\nEND TYPE\nTYPE OUTER\n P AS INNER\n Q AS INNER\n N AS DOUBLE\nEND TYPE\nTYPE TOP\n O AS OUTER\n L AS LONG\nEND TYPE\n";
     for body in [
